@@ -34,7 +34,7 @@ NONEMBEDDED = ["Forward_Euler", "midpoint_RK2", "Heun_RK2", "Ralston_RK2", "Kutt
 def instances(tier, seed):
     out = []
     for n, sb, ob in ([(2, 2, 2)] if tier == "quick" else [(2, 2, 2), (3, 2, 2)]):
-        for order in ((1, 2, 4) if tier == "quick" else (1, 2, 3, 4, 5)):
+        for order in ((1, 2, 4) if tier == "quick" else ((1, 2, 3, 4) if n == 2 else (1, 2))):      # order 5 on 2 sites / order >= 3 on 3 sites: term blow-up (memory cap)
             out.append(dict(op="taylor", n=n, sbond=sb, obond=ob, order=order, imag=False, label="taylor n=%d order=%d" % (n, order), key="taylor"))
     for td in (False, True):
         out.append(dict(op="rk4", n=2, sbond=2, obond=(1 if td else 2), td=td, imag=False, label="tdrk4 n=2 time-dependent=%s" % td, key="rk4"))
@@ -58,6 +58,11 @@ def instances(tier, seed):
                     for imag in ((False, True) if (local == "arbitrary" and len(kinds) == 3) or tier == "thorough" else (False,)):
                         out.append(dict(op="tdvp_sweep", kinds=kinds, bonds=bonds, method=method, start=start, local=local, imag=imag, run_opts=dict(budget_s=120.0),
                                         label="chain %s sweep %s centre starts %s local=%s imag=%s" % (method, "".join(kinds), start, local, imag), key="sweep/%s" % method))
+            # the same sweeps with an ODE solver instead of Krylov for the local problems (ivp_solver != "krylov"): the right-hand side handed to solve_ivp
+            if len(kinds) == 3 or tier == "thorough":
+                for imag in (False, True):
+                    out.append(dict(op="tdvp_sweep", kinds=kinds, bonds=bonds, method=method, start="left", local="arbitrary", imag=imag, ivp=True, run_opts=dict(budget_s=120.0),
+                                    label="chain %s sweep %s local ODE solver imag=%s" % (method, "".join(kinds), imag), key="sweep/%s/ivp" % method))
     return out
 
 
@@ -142,7 +147,7 @@ def h_tdvp_sweep(ctx, P):
     qn = [[[0]]] + [[[0], [1]] for _ in range(n - 1)] + [[[0]]]
     qnidx = 0 if P["start"] == "left" else n - 1
     psi = lib.build_mps(ctx, "a", model, P["bonds"], [np.array(q) for q in qn], [1], qnidx, to_right=(qnidx == 0), kind="real", coeff="one")
-    psi.evolve_config = EvolveConfig(getattr(EvolveMethod, P["method"]))
+    psi.evolve_config = EvolveConfig(getattr(EvolveMethod, P["method"]), **(dict(ivp_solver="RK45") if P.get("ivp") else {}))
     psi.compress_config = CompressConfig(CompressCriteria.fixed, max_bonddim=16)
     H = sym_mpo(ctx, "o", model, n)
     Hd = lib.dense_op(lib.tensors(H))
@@ -219,14 +224,30 @@ def h_tdvp_sweep(ctx, P):
                 out[idx] = e_
         return out, 1
 
-    mpsmod.Environ, mpsmod.hop_expr, mpsmod.expm_krylov = env_wrapper, hop_wrapper, fake_expm
+    def fake_ivp(fun, t_span, y0, **kw):
+        """contract stub for scipy's solve_ivp (ivp_solver != "krylov"): arbitrary end point; what is checked is the RIGHT-HAND SIDE: fun(t, y) must be
+        g * H_eff y with g = -i (forward, real time), -1 (forward, imaginary time) and the opposite sign for the backward steps, integrated over
+        (0, |dt|/2); the equivalent exponent span * g enters the same time bookkeeping as the Krylov steps"""
+        kind = cur["kind"]
+        forward = (kind == 2) or (kind == 1 and P["method"] == "tdvp_ps")
+        g = (-1 if forward else 1) * (1 if P["imag"] else 1j)
+        ginv = 1 / g if not isinstance(g, complex) else g.conjugate()      # |g| = 1
+        res, _ = fake_expm(lambda x: np.asarray(fun(0, x)) * ginv, t_span[1] * g, y0)
+        conds.append(ctx.eq(t_span[0], 0))
+
+        class Sol:
+            y = res
+            nfev = 1
+        return Sol()
+    real_ivp = mpsmod.solve_ivp
+    mpsmod.Environ, mpsmod.hop_expr, mpsmod.expm_krylov, mpsmod.solve_ivp = env_wrapper, hop_wrapper, fake_expm, fake_ivp
     undo = None
     if ctx.symbolic:
         _, undo = stubs.lapack_contract(ctx, modules=("renormalizer.mps.svd_qn",))
     try:
         res = psi.evolve(H, dt, normalize=False)
     finally:
-        mpsmod.Environ, mpsmod.hop_expr, mpsmod.expm_krylov = real_env, real_hop, real_expm
+        mpsmod.Environ, mpsmod.hop_expr, mpsmod.expm_krylov, mpsmod.solve_ivp = real_env, real_hop, real_expm, real_ivp
         if undo:
             undo()
     name = P["method"]
